@@ -295,6 +295,9 @@ def rule_WSI(tree: Tree, scope: Optional[List[Tuple[str, Optional[str]]]] = None
     if ref is None:
         raise AnalysisError("vt/ref_guards.json has no write inventory (regenerate with `python3 -m vt.canon /repo`)")
     known_attrs = {a for ws in ref.values() for a in ws}
+    # an attribute that the reference tree only *reads* (configuration, input fields) and that is now assigned is state written from a new place too
+    from ..canon import _ref as _names_ref
+    ref_attr_names = set(_names_ref().get("::attribute-names", []))
     cur = write_inventory(tree)
     n = 0
     for fkey, ws in sorted(cur.items()):
@@ -305,7 +308,7 @@ def rule_WSI(tree: Tree, scope: Optional[List[Tuple[str, Optional[str]]]] = None
             continue
         n += 1
         r.instances += 1
-        new = [a for a in ws if a not in ref[fkey] and a in known_attrs]
+        new = [a for a in ws if a not in ref[fkey] and (a in known_attrs or a.split(".")[-1] in ref_attr_names)]
         r.ob(not new, Finding("WSI", f"{fkey}:new-writes:{','.join(new)}",
                               f"{qn} now writes {new}, state that this function (and everything it calls) did not touch in the reference tree: the attribute is "
                               f"reset / advanced / overwritten from a new place", relpath))
